@@ -32,11 +32,12 @@ const (
 	clPruneCrashChanged // crash image after every commit, inputs changed before the restart
 	clPruneCommitErr    // a commit returns an error
 	clReadErr           // real migrators: ONE transient read error during a start (readerr.go)
+	clCross             // real registry: histories of starts under DIFFERENT configurations (cross.go)
 	nClasses
 )
 
 var className = [...]string{"real/cancel", "real/crash", "real/commit-error", "toy", "toy/nil-ctxerr", "downgrade/opted-in-unapplied",
-	"prune/cancel", "prune/crash", "prune/crash-changed-inputs", "prune/commit-error", "real/read-error"}
+	"prune/cancel", "prune/crash", "prune/crash-changed-inputs", "prune/commit-error", "real/read-error", "cross/history"}
 
 // C18 is one simulated run.
 func C18(c *sim.Ctx) {
@@ -45,7 +46,8 @@ func C18(c *sim.Ctx) {
 	cls := [...]int{clCancel, clCrash, clCancel, clCrash, clCommitErr, clToy, clToy, clToyNilCtx, clBeyond, clCrash,
 		clPruneCancel, clPruneCrash, clPruneCrashChanged, clPruneCommitErr, clPruneCancel, clPruneCrash,
 		// appended (recorded tape words are normalised to the bound, so older replay files keep their class)
-		clReadErr, clReadErr}[t.Draw("class", 18)]
+		clReadErr, clReadErr,
+		clCross, clCross, clCross, clCross}[t.Draw("class", 22)]
 	if only := c.Knobs["only"]; only != "" { // developer aid: JSIM_KNOB_only=<class name prefix>
 		var sel []int
 		for i, n := range className {
@@ -60,6 +62,11 @@ func C18(c *sim.Ctx) {
 	e := &env{c: c, s: &sched{}}
 	c.Logf("class %s gomaxprocs=%d", className[cls], runtime.GOMAXPROCS(0))
 	defer e.reportShape()
+	// the records of the previous release, decoded by the code under test (golden.go)
+	if m := goldenSelfCheck(c); m != nil {
+		e.misread = m
+		c.Logf("a record written by the previous release is misread: %s", m.key)
+	}
 	switch cls {
 	case clCancel, clCrash, clCommitErr, clReadErr:
 		runReal(e, cls)
@@ -67,12 +74,15 @@ func C18(c *sim.Ctx) {
 		runToy(e, cls == clToyNilCtx)
 	case clBeyond:
 		runBeyond(e)
+	case clCross:
+		runCross(e)
 	default:
 		runPrune(e, cls)
 	}
 }
 
-// reportShape (deferred by C18) reports a registry-shape mismatch noted at some start of this run.
+// reportShape (deferred by C18) reports a registry-shape mismatch noted at some start of this run, or
+// a record of the previous release that the code under test misreads (noted when the run began).
 // The run is not cut short at the start that noted it: the binary goes on with the registry the
 // node would really build, so that the behavioural oracles (which judge against the released bit
 // assignment, a constant of the harness) can show what the shape does to a database; the first of
@@ -80,7 +90,11 @@ func C18(c *sim.Ctx) {
 // gives up because its world no longer fits the registry - the shape mismatch is the violation.
 // Without a noted mismatch this function does nothing (it does not even recover).
 func (e *env) reportShape() {
-	if e.shape == nil {
+	noted, ctx := e.shape, "registry construction"
+	if e.misread != nil { // noted first (when the run began)
+		noted, ctx = e.misread, "records of the previous release"
+	}
+	if noted == nil {
 		return
 	}
 	ended := "the run completed without a behavioural violation"
@@ -90,7 +104,7 @@ func (e *env) reportShape() {
 		}
 		ended = fmt.Sprintf("the run then stopped with: %v", r)
 	}
-	failM(e.c, &mismatch{e.shape.class, e.shape.key, e.shape.detail + " (" + ended + ")"}, "registry construction")
+	failM(e.c, &mismatch{noted.class, noted.key, noted.detail + " (" + ended + ")"}, ctx)
 }
 
 func failM(c *sim.Ctx, m *mismatch, ctx string) {
@@ -114,6 +128,7 @@ type realCase struct {
 
 func (rc *realCase) binary(f flags) binary {
 	return binary{
+		prod:     true,
 		desc:     f.String(),
 		target:   f.target(),
 		nEntries: f.entries,
@@ -127,7 +142,7 @@ func (rc *realCase) binary(f flags) binary {
 
 func drawWorld(e *env) *world {
 	c, t := e.c, e.c.T
-	w := &world{c: c}
+	w := &world{c: c, sdlCkpt: -1}
 	n := blockCounts[t.Draw("blocks", len(blockCounts))]
 	w.lay = layout(t.Draw("layout", 4))
 	if t.Chance("layout.old", 1, 2) {
@@ -157,6 +172,19 @@ func drawWorld(e *env) *world {
 	if w.meta == metaOptedMore {
 		w.optedAux = t.Chance("opted.aux", 1, 2)
 		w.optedNewState = !w.optedAux || t.Chance("opted.newstate", 1, 3)
+	}
+	// an interrupted older state-diff-length run (checkpoint stored); on a pruned database the
+	// checkpoint may lie below the floor (see buildBase)
+	if (w.lay == layoutNewTx || w.lay == layoutPruned) && n > 0 && t.Chance("sdl.ckpt", 1, 3) {
+		w.sdlCkpt = t.Draw("sdl.ckpt.block", n)
+		if w.lay == layoutPruned && uint64(w.sdlCkpt) < w.floor {
+			c.Probe("sdl_checkpoint_below_pruned_floor")
+		}
+	}
+	w.golden = t.Chance("golden", 1, 2)
+	e.golden = w.golden
+	if w.golden {
+		c.Probe("golden_records")
 	}
 	w.buildBase()
 	return w
@@ -194,8 +222,9 @@ func runReal(e *env, cls int) {
 		nTx += len(b.B.Transactions)
 	}
 	c.Sample = map[string]any{"class": className[cls], "blocks": len(w.chain), "txs": nTx, "layout": w.lay.String(), "floor": w.floor,
-		"converted_prefix": w.pre, "leading_empty": w.leadEmpty, "trailing_empty": w.trailEmpty, "meta_variant": int(w.meta), "flags_first": rc.f0.String(), "flags_last": rc.fF.String()}
-	c.Logf("world: %d blocks %d txs (empty: first %d, last %d) layout=%s floor=%d pre=%d meta=%d f0=%s fF=%s", len(w.chain), nTx, w.leadEmpty, w.trailEmpty, w.lay, w.floor, w.pre, w.meta, rc.f0, rc.fF)
+		"converted_prefix": w.pre, "leading_empty": w.leadEmpty, "trailing_empty": w.trailEmpty, "meta_variant": int(w.meta), "flags_first": rc.f0.String(), "flags_last": rc.fF.String(),
+		"sdl_checkpoint": w.sdlCkpt, "golden_records": w.golden}
+	c.Logf("world: %d blocks %d txs (empty: first %d, last %d) layout=%s floor=%d pre=%d meta=%d sdl-checkpoint=%d golden=%v f0=%s fF=%s", len(w.chain), nTx, w.leadEmpty, w.trailEmpty, w.lay, w.floor, w.pre, w.meta, w.sdlCkpt, w.golden, rc.f0, rc.fF)
 	if len(w.chain) == 0 {
 		c.Probe("zero_block_db")
 	}
@@ -569,6 +598,9 @@ func (rc *realCase) cancelClass() {
 // opted-in but not yet applied migration" is decided in its own class, see runBeyond.)
 func (rc *realCase) downgrades(img *memory.Database, have flags, what string, quiet bool) {
 	e, c, t := rc.e, rc.e.c, rc.e.c.T
+	if e.golden {
+		transcodeToReleased(c, img, true) // what the refused binary finds (e.start does the same to its copy)
+	}
 	md := readMeta(c, img)
 	var cands []flags
 	for _, drop := range []string{"aux", "newstate", "prune"} {
@@ -609,7 +641,7 @@ func (rc *realCase) downgrades(img *memory.Database, have flags, what string, qu
 			continue // decided by the class downgrade/opted-in-unapplied
 		}
 		cp := img.Copy()
-		r := e.start(cp, rc.binary(f), inject{schedSeed: 0, tag: "downgrade"})
+		r := e.start(cp, rc.binary(f), inject{schedSeed: 0, tag: "downgrade", transcoded: true})
 		c.Evals++
 		if quiet {
 			c.Logf("%s: binary %s tried", what, f)
@@ -641,8 +673,10 @@ func (rc *realCase) downgrades(img *memory.Database, have flags, what string, qu
 // contain that entry at all, opens the database. The property demands a refusal.
 func runBeyond(e *env) {
 	c, t := e.c, e.c.T
-	w := &world{c: c, lay: layoutNewTx, meta: metaExact}
+	w := &world{c: c, lay: layoutNewTx, meta: metaExact, sdlCkpt: -1}
 	w.buildChain([]int{0, 1, 3}[t.Draw("blocks", 3)])
+	w.golden = t.Chance("golden", 1, 2)
+	e.golden = w.golden
 	w.buildBase()
 	rc := &realCase{e: e, w: w}
 	units := 2 + t.Draw("aux.units", 3)
@@ -789,8 +823,9 @@ func runToy(e *env, withNilCtx bool) {
 	c.Logf("toys: %+v enabled=%v", specs, enabled)
 
 	img := memory.New()
+	e.golden = t.Chance("golden", 1, 2)
 	if t.Chance("toy.meta_zero", 1, 3) {
-		c.Must(migration.WriteSchemaMetadata(img, migration.SchemaMetadata{}), "metadata")
+		putMeta(c, img, migration.SchemaMetadata{}, e.golden)
 	}
 	type image struct {
 		img *memory.Database
@@ -900,6 +935,9 @@ func runToy(e *env, withNilCtx bool) {
 
 func rcToyDowngrade(e *env, img *memory.Database, specs []toySpec, enabled []bool, mk func([]bool, int, bool) binary) {
 	c, t := e.c, e.c.T
+	if e.golden {
+		transcodeToReleased(c, img, false)
+	}
 	md := readMeta(c, img)
 	en := append([]bool(nil), enabled...)
 	entries := len(specs)
@@ -924,7 +962,7 @@ func rcToyDowngrade(e *env, img *memory.Database, specs []toySpec, enabled []boo
 		return
 	}
 	cp := img.Copy()
-	r := e.start(cp, b, inject{tag: "downgrade"})
+	r := e.start(cp, b, inject{tag: "downgrade", transcoded: true})
 	c.Evals++
 	c.Fault("downgrade_binary")
 	c.Logf("downgrade %s: refused=%v", b.desc, r.refused != nil)
